@@ -412,6 +412,7 @@ type c04Wide struct {
 	W      int    `json:"w"`     // children of the root
 	Grand  int    `json:"grand"` // every Grand-th child has W2 children of its own (0: none)
 	W2     int    `json:"w2"`
+	Tail   int    `json:"tail"` // the last Tail children have one child each
 	Format string `json:"format"`
 	Entry  string `json:"entry"`
 }
@@ -427,13 +428,16 @@ func c04WideCheck(c c04Wide) string {
 				k.Kids = append(k.Kids, &model.T{Name: fmt.Sprintf("g%d-%d", i, j)})
 			}
 		}
+		if i >= c.W-c.Tail && len(k.Kids) == 0 {
+			k.Kids = []*model.T{{Name: fmt.Sprintf("t%d", i)}}
+		}
 		r.Kids = append(r.Kids, k)
 	}
 	msg := c04Check(c04Case{Forest: model.Forest{r}, Format: c.Format, Entry: c.Entry})
 	if msg == "" {
 		return ""
 	}
-	return fmt.Sprintf("a root with %d children (every %d-th with %d children of its own), format=%s entry=%s:\n%s", c.W, c.Grand, c.W2, c.Format, c.Entry, truncate(msg, 1500))
+	return fmt.Sprintf("a root with %d children (every %d-th with %d children of its own, the last %d with one child each), format=%s entry=%s:\n%s", c.W, c.Grand, c.W2, c.Tail, c.Format, c.Entry, truncate(msg, 1500))
 }
 
 func TestC04Wide(t *testing.T) {
@@ -442,10 +446,10 @@ func TestC04Wide(t *testing.T) {
 	if thorough() {
 		ws = append(ws, 2047, 2048, 2050, 4096, 4099, 10000)
 	}
-	col.Rule = fmt.Sprintf("one root with W children, W in %v, alone and with every 100th child having 3 or 1030 children of its own x format x entry (md, noiter, root, md-massive); oracle as in the other parts (decode, compare with the tree)", ws)
+	col.Rule = fmt.Sprintf("one root with W children, W in %v, as leaves, each with one child, every 100th with 3 children plus the last 9 with one, every 500th with 1030 children plus the last 3 with one x format x entry (md, noiter, root, md-massive); oracle as in the other parts (decode, compare with the tree)", ws)
 	n := 0
 	for _, w := range ws {
-		for _, g := range [][2]int{{0, 0}, {100, 3}, {500, 1030}} {
+		for _, g := range [][3]int{{0, 0, 0}, {1, 1, 0}, {100, 3, 9}, {500, 1030, 3}} {
 			for _, format := range []string{"json", "yaml", "toml"} {
 				for _, entry := range []string{"md", "noiter", "root", "md-massive"} {
 					n++
@@ -455,7 +459,7 @@ func TestC04Wide(t *testing.T) {
 					if !thorough() && n%3 != 0 {
 						continue
 					}
-					c := c04Wide{W: w, Grand: g[0], W2: g[1], Format: format, Entry: entry}
+					c := c04Wide{W: w, Grand: g[0], W2: g[1], Tail: g[2], Format: format, Entry: entry}
 					col.eval(true, hash64(fmt.Sprint(c)), "format:"+format, "entry:"+entry, fmt.Sprintf("w>=1024:%v", w >= 1024))
 					col.sample(func() any { return c })
 					if msg := c04WideCheck(c); msg != "" {
